@@ -9,6 +9,7 @@ def _nontrivial(t):
 CFG = {
     "module": "Swat4.Properties.C15",
     "theorems": [
+        "Swat4.C15.facts_config_wiring",
         "Swat4.C15.enqueue_view",
         "Swat4.C15.enqueue_dropped",
         "Swat4.C15.enqueueAll_run",
